@@ -122,6 +122,18 @@ impl<'c, E: TElemT> TInterp<'c, E> {
         if e.get().uid() != uid {
             bad!("C06", "insert_unique-entry", "entry of insert_unique holds uid {} want {uid}", e.get().uid());
         }
+        if payload % 5 == 3 && self.case.h("transcript") == 0 {
+            // take the element out again through the entry insert_unique returned and put it back
+            // through the VacantEntry that remove() hands out
+            let (el, vac) = e.remove();
+            if el.uid() != uid {
+                bad!("C06", "remove-wrong-element", "insert_unique(..).remove() returned uid {} want {uid}", el.uid());
+            }
+            let o2 = vac.insert(el);
+            if o2.get().uid() != uid {
+                bad!("C06", "vacant-insert-entry", "VacantEntry::insert entry holds uid {}", o2.get().uid());
+            }
+        }
         self.model.push(TM { uid, id, hash, payload });
         let st = alloc::stats();
         if room > 0 && (st.n_alloc != st0.n_alloc || st.n_dealloc != st0.n_dealloc) {
@@ -799,6 +811,21 @@ impl<'c, E: TElemT> TInterp<'c, E> {
             if dflt.next().is_some() {
                 bad!("C09", "default-iter-not-empty", "IterHash::default() is not empty");
             }
+        }
+        // the same iteration consumed through fold (count / for_each use it) and through a clone
+        let folded = self.table.iter_hash(hash).fold(Vec::new(), |mut acc, e| {
+            acc.push(e.uid());
+            acc
+        });
+        let counted = self.table.iter_hash(hash).count();
+        let cloned: Vec<u64> = {
+            let mut it = self.table.iter_hash(hash);
+            let _first = it.next();
+            let it2 = it.clone();
+            _first.into_iter().chain(it2).map(|e| e.uid()).collect()
+        };
+        if !mutate && (folded != got || counted != got.len() || cloned != got) {
+            bad!("C09", "fold-count", "iter_hash({hash:#x}): next() yields {} elements, fold {}, count() {counted}, a clone taken after the first element {}", got.len(), folded.len(), cloned.len());
         }
         let mut s = got.clone();
         s.sort_unstable();
